@@ -2,7 +2,7 @@ SPECIFICATION GSpecM
 CONSTANTS
   PRICE = {1, 3, 10}
   QTY = {1, 2, 3}
-  FEE = {0, 1, 2}
+  FEE <- GenFeeSigned
   MARK <- GenMarkSigned
   MaxFills = 99
   MaxLen = 14
